@@ -135,6 +135,11 @@ pub fn run(ctx: &mut Ctx) {
         }
         let mut r = ctx.rng_for(0, i);
         let index = 1 << 56 | i;
+        if (i / 8) % 2 == 1 {
+            // the shared buffers still hold an unrelated borrowed curve
+            crate::gen::paths::dirty(&mut ctx.rng_for(9, i), &mut bufs);
+            ctx.count("computed_after_a_borrowed_curve");
+        }
         match i % 8 {
             0 | 1 | 2 => random_arc(ctx, index, &mut r, &mut bufs),
             3 | 4 => bezier_case(ctx, index, &mut r, &mut bufs),
